@@ -1,4 +1,4 @@
-\* BoundedBatchPool AS IT IS for CancelAcceptedOnClose: TLC finds F6 - invariant C37_CloseWaits is violated.
+\* BoundedBatchPool BEFORE /repo commit 294b0250e (FixF6 = FALSE), CancelAcceptedOnClose: TLC finds F6 - invariant C37_CloseWaits is violated (14 states).
 SPECIFICATION Spec
 CONSTANTS
   NP = 2
@@ -7,8 +7,7 @@ CONSTANTS
   Workers = 1
   MaxItems = 1
   MaxWait = TRUE
-  CancelAcceptedSet = {TRUE}
-  CancelRunningSet = {TRUE, FALSE}
+  CloseModes <- ModesCancelAccepted
   FixF5 = TRUE
   FixF6 = FALSE
 INVARIANTS TypeOK C37_AtMostOnce C37_RejectedNeverRuns C37_OnlyAdmittedRuns C37_CancelOnlyIfConfigured C37_CancelOnlyAfterClose C37_CloseWaits SlotsCoverQueue
